@@ -19,7 +19,7 @@ tvars == <<l, P, last, exp, kf, via>>
 NoLine  == [ev |-> "none"]
 NoRoute == Route(P4("0.0.0.0/0", 0, 0, 0, 0, 0), "local", "", <<>>, 0, -1, -1, <<>>, <<>>, <<>>, "valid", FALSE)
 NoExp   == [e1 |-> Res("und", W(NoRoute), 0), e2 |-> Res("und", W(NoRoute), 0)]
-NoKf    == [stale |-> {}, dead |-> FALSE, extsets |-> {}, dirs |-> {}]
+NoKf    == [stale |-> {}, dead |-> FALSE, dirs |-> {}]
 
 (* JSON arrays arrive as tuples; the spec state holds sets *)
 JCond(c) == [c EXCEPT !.list = SeqToSet(@)]
@@ -39,10 +39,6 @@ MultiCut(o) == o.op = "DelStmt" /\ ~o.all /\ (Cardinality(o.stmt.conds) >= 2 \/ 
 (* KF-C10-set-replace-stale: AddDefinedSet(replace=true) on a set that statements refer to *)
 StaleBy(o) == IF o.op = "AddSet" /\ o.replace /\ o.name \in DOMAIN P.dsets
               THEN {n \in DOMAIN P.stmts : o.name \in SetsUsedBy(P.stmts[n])} ELSE {}
-(* KF-C10-extset-remove-subtype: DeleteDefinedSet(all=false) on an ext-community-set that keeps a
-   member with the same value but another subtype than a removed one (rt:X / soo:X) *)
-ExtCollision(o) == /\ o.op = "DelSet" /\ o.kind = "ext" /\ ~o.all
-                   /\ \E a \in o.members, b \in P.dsets[o.name].members \ o.members : ExtValue[a] = ExtValue[b]
 (* KF-C10-delasg-default: DeletePolicyAssignment(all=true) *)
 UnsetsDefault(o) == o.op = "DelAsg" /\ o.all
 
@@ -51,9 +47,6 @@ KfAfter(o) ==
    \* the multi-cut removes the wrong conditions/actions or crashes half-way: from here on the
    \* program held by the code is unknown, the rest of the trace is not judged
    dead    |-> kf.dead \/ MultiCut(o) \/ (MustRefuse(P, o) /\ Trace[l].res = "ok"),
-   extsets |-> IF ExtCollision(o) THEN kf.extsets \cup {o.name}
-               ELSE IF (o.op = "AddSet" /\ o.replace) \/ (o.op = "DelSet" /\ o.all) THEN kf.extsets \ {o.name}
-               ELSE kf.extsets,
    dirs    |-> IF UnsetsDefault(o) THEN kf.dirs \cup {o.dir}
                ELSE IF o.op \in {"SetAsg", "AddAsg"} /\ o.def # "none" THEN kf.dirs \ {o.dir}
                ELSE kf.dirs]
@@ -186,7 +179,6 @@ HasActMode(d, k, m) == \E s \in StmtsOf(d) : \E a \in s.acts : a.k = k /\ a.mode
 
 SitStale       == EvalTaint(kf.stale, {})
 SitCorrupt     == IsEval /\ kf.dead
-SitExtSet      == EvalTaint({}, kf.extsets)
 SitDefault     == IsEval /\ {Op.d1, Op.d2} \cap kf.dirs # {}
 SitExtRemove   == IsEval /\ ExtLB \in SeqToSet(Op.route.ext) /\ (HasActMode(Op.d1, "ext", "remove") \/ HasActMode(Op.d2, "ext", "remove"))
 SitLargeAdd    == IsEval /\ (HasActMode(Op.d1, "large", "add") \/ HasActMode(Op.d2, "large", "add"))
@@ -198,11 +190,9 @@ SitApiCommAct  == HasRb /\ via = "api" /\ \E s \in Range(P.stmts) : \E a \in s.a
 C10_ConfigNoCrash_MultiCut == SitMultiCut => C10_ConfigNoCrash
 C10_Eval_StaleSet       == SitStale     => (C10_Verdict /\ C10_Attrs)
 C10_Eval_CorruptStmt    == SitCorrupt   => (C10_Verdict /\ C10_Attrs)
-C10_Eval_ExtSetDelete   == SitExtSet    => (C10_Verdict /\ C10_Attrs)
 C10_Verdict_DefaultUnset == SitDefault  => C10_Verdict
 C10_Attrs_ExtRemove     == SitExtRemove => C10_Attrs
 C10_StoredUnchanged_LargeAdd == SitLargeAdd => C10_StoredUnchanged
-C10_ReadBack_ExtSetDelete == (HasRb /\ kf.extsets # {}) => RbSets
 C10_ReadBack_CorruptStmt  == (HasRb /\ kf.dead) => C10_ReadBack
 C10_ReadBack_DefaultUnset == (HasRb /\ kf.dirs # {}) => RbAsg
 C10_ReadBack_ApiOrigin    == SitApiOrigin  => (RbStmts /\ RbPols)
@@ -222,7 +212,7 @@ LbDropped(d, e, v, attrs) ==
 EvalKF(d, p, e, o) ==
   \/ ResultSome(d, p, e, o.v, o.attrs)
   \/ kf.dead
-  \/ TaintedBy(d, kf.stale, kf.extsets)
+  \/ TaintedBy(d, kf.stale, {})
   \/ DefaultRejected(d, e, o.v)
   \/ LbDropped(d, e, o.v, o.attrs)
 C10_Verdict_KF == IsEval => /\ VerdictSome(Op.d1, Op.p1, exp.e1, Obs.r1.v) \/ EvalKF(Op.d1, Op.p1, exp.e1, Obs.r1)
@@ -257,7 +247,7 @@ ApiNorm(s) == IF via = "api"
                         {IF a.k \in {"ext", "large"} THEN [a EXCEPT !.mode = "*"] ELSE a : a \in s.acts}, s.disp)
               ELSE s
 C10_ReadBack_KF ==
-  (HasRb /\ ~kf.dead) => /\ RbSetsOn(DOMAIN P.dsets \ kf.extsets)
+  (HasRb /\ ~kf.dead) => /\ RbSets
                          /\ RbStmtsBy(DOMAIN P.stmts, ApiNorm)
                          /\ RbPolsBy(DOMAIN P.stmts, ApiNorm)
                          /\ RbAsgOn(kf.dirs)
